@@ -143,37 +143,6 @@ pub proof fn lemma_phat_between(n: real, k: real, z: real)
 }
 
 // monotonicity in k of the lower bound
-pub proof fn lemma_lo_monotone(n: real, k: real, z: real)
-    requires n > 0real, 0real <= k, k + 1real <= n, z >= 0real
-    ensures w_lo(n,k,z) < w_lo(n,k+1real,z)
-{
-    let k1 = k + 1real;
-    lemma_basic(n,k,z); lemma_basic(n,k1,z);
-    lemma_phat_between(n,k,z); lemma_phat_between(n,k1,z); lemma_order(n,k1,z);
-    let p = w_lo(n,k,z); let d = wd(n,z);
-    lemma_factor(n,k,z,p);
-    assert(wg(n,k,z,p) == 0real) by(nonlinear_arith) requires wg(n,k,z,p) == d * ((p - p) * (p - w_hi(n,k,z)));
-    // G(k+1,p) - G(k,p) = -2p + (k1/n)*k1 - (k/n)*k
-    let kk = k/n; let kk1 = k1/n;
-    assert(kk*n == k) by(nonlinear_arith) requires kk == k/n, n > 0real;
-    assert(kk1*n == k1) by(nonlinear_arith) requires kk1 == k1/n, n > 0real;
-    assert(wg(n,k1,z,p) - wg(n,k,z,p) == kk1*k1 - kk*k - 2real*p) by(nonlinear_arith)
-        requires wg(n,k1,z,p) == d*(p*p) - (2real*k1 + z*z)*p + kk1*k1, wg(n,k,z,p) == d*(p*p) - (2real*k + z*z)*p + kk*k, k1 == k + 1real;
-    // kk1*k1 - kk*k >= 2 kk + (something positive): (k+1)^2/n - k^2/n = (2k+1)/n = 2kk + 1/n
-    let inv = 1real/n;
-    assert(inv * n == 1real) by(nonlinear_arith) requires inv == 1real/n, n > 0real;
-    assert(inv > 0real) by(nonlinear_arith) requires inv*n == 1real, n > 0real;
-    assert(kk1 == kk + inv) by(nonlinear_arith) requires kk1*n == k1, kk*n == k, inv*n == 1real, k1 == k + 1real, n > 0real;
-    assert(kk1*k1 - kk*k == 2real*kk + inv) by(nonlinear_arith) requires kk1 == kk + inv, k1 == k + 1real, kk*n == k, inv*n == 1real, n > 0real;
-    assert(p <= kk);
-    assert(wg(n,k1,z,p) > 0real);
-    lemma_factor(n,k1,z,p);
-    lemma_quad_outside(d, w_lo(n,k1,z), w_hi(n,k1,z), p);
-    // p <= kk < kk1 <= w_hi(k1)  hence not p > w_hi(k1)
-    assert(kk < kk1);
-}
-
-// ---- score equation form:  G(k,p) = n (p - k/n)^2 - z^2 p (1-p) ----
 pub open spec fn score(n: real, k: real, z: real, p: real) -> real { n*((p - k/n)*(p - k/n)) - (z*z)*(p*(1real - p)) }
 pub proof fn lemma_score_form(n: real, k: real, z: real, p: real)
     requires n > 0real
@@ -288,150 +257,3 @@ pub proof fn lemma_z_monotone(n: real, k: real, z1: real, z2: real)
 }
 
 // ---- monotonicity in k of the upper bound, by mirror ----
-pub proof fn lemma_hi_monotone(n: real, k: real, z: real)
-    requires n > 0real, 0real <= k, k + 1real <= n, z >= 0real
-    ensures w_hi(n,k,z) < w_hi(n,k+1real,z)
-{
-    let j = n - (k + 1real);
-    lemma_lo_monotone(n, j, z);
-    lemma_mirror(n, k, z); lemma_mirror(n, k + 1real, z);
-    assert(n - k == j + 1real);
-}
-
-// ---- midpoint is a convex combination of k/n and 1/2 ----
-pub proof fn lemma_midpoint(n: real, k: real, z: real)
-    requires n > 0real
-    ensures (w_lo(n,k,z) + w_hi(n,k,z)) / 2real == (n*(k/n) + (z*z)*0.5real) / (n + z*z)
-{
-    assert(z*z >= 0real) by(nonlinear_arith);
-    let kk = k/n;
-    assert(kk*n == k) by(nonlinear_arith) requires kk == k/n, n > 0real;
-}
-
-// ---- narrower with n at a fixed observed proportion ----
-pub proof fn lemma_sq_lt(x: real, y: real)
-    requires x >= 0real, y >= 0real, x*x < y*y
-    ensures x < y
-{
-    assert(!(x >= y)) by(nonlinear_arith) requires x >= 0real, y >= 0real, x*x < y*y;
-}
-pub proof fn lemma_span_sq(n: real, k: real, z: real)
-    requires n > 0real, 0real <= k <= n, z >= 0real
-    ensures
-        w_span(n,k,z) >= 0real,
-        (w_span(n,k,z) * w_span(n,k,z)) * (wd(n,z) * wd(n,z)) == (z*z) * wrad(n,k,z),
-{
-    broadcast use ax_sqrt_plain;
-    lemma_basic(n,k,z);
-    let d = wd(n,z); let s = sqrt_spec(wrad(n,k,z)); let zd = z/d; let sp = zd*s; let s2 = s*s;
-    assert(zd*d == z) by(nonlinear_arith) requires zd == z/d, d > 0real;
-    assert(zd >= 0real) by(nonlinear_arith) requires zd*d == z, d > 0real, z >= 0real;
-    assert(sp >= 0real) by(nonlinear_arith) requires sp == zd*s, zd >= 0real, s >= 0real;
-    let spd = sp*d;
-    assert(spd == (zd*d)*s) by(nonlinear_arith) requires spd == sp*d, sp == zd*s;
-    assert(spd == z*s);
-    assert(spd*spd == (z*z)*s2) by(nonlinear_arith) requires spd == z*s, s2 == s*s;
-    assert((sp*sp)*(d*d) == spd*spd) by(nonlinear_arith) requires spd == sp*d;
-}
-pub proof fn lemma_narrower(n: real, k: real, z: real, m: real)
-    requires n > 0real, 0real < k < n, z > 0real, m > 1real
-    ensures w_hi(m*n, m*k, z) - w_lo(m*n, m*k, z) < w_hi(n,k,z) - w_lo(n,k,z)
-{
-    let n2 = m*n; let k2 = m*k;
-    assert(n2 > 0real) by(nonlinear_arith) requires n2 == m*n, m > 1real, n > 0real;
-    assert(0real < k2 < n2) by(nonlinear_arith) requires k2 == m*k, n2 == m*n, m > 1real, 0real < k < n;
-    lemma_basic(n,k,z); lemma_basic(n2,k2,z);
-    lemma_span_sq(n,k,z); lemma_span_sq(n2,k2,z);
-    let zz = z*z; let w = zz/4real;
-    assert(zz > 0real) by(nonlinear_arith) requires zz == z*z, z > 0real;
-    let a = k*(n-k)/n;          // rad1 = a + w
-    let kk = k/n;
-    assert(kk*n == k) by(nonlinear_arith) requires kk == k/n, n > 0real;
-    assert(a == kk*(n-k)) by(nonlinear_arith) requires a == k*(n-k)/n, kk == k/n, n > 0real;
-    assert(kk > 0real) by(nonlinear_arith) requires kk*n == k, n > 0real, k > 0real;
-    assert(a > 0real) by(nonlinear_arith) requires a == kk*(n-k), kk > 0real, n - k > 0real;
-    // rad2 = m*a + w
-    let kk2 = k2/n2;
-    assert(kk2*n2 == k2) by(nonlinear_arith) requires kk2 == k2/n2, n2 > 0real;
-    assert(kk2 == kk) by(nonlinear_arith) requires kk2*n2 == k2, kk*n == k, n2 == m*n, k2 == m*k, m > 1real, n > 0real;
-    let a2 = k2*(n2-k2)/n2;
-    assert(a2 == kk2*(n2-k2)) by(nonlinear_arith) requires a2 == k2*(n2-k2)/n2, kk2 == k2/n2, n2 > 0real;
-    assert(n2 - k2 == m*(n-k)) by(nonlinear_arith) requires n2 == m*n, k2 == m*k;
-    assert(a2 == m*a) by(nonlinear_arith) requires a2 == kk*(n2-k2), n2 - k2 == m*(n-k), a == kk*(n-k);
-    let r1 = wrad(n,k,z); let r2 = wrad(n2,k2,z);
-    assert(r1 == a + w && r2 == m*a + w);
-    // a <= n/4  via  n*n - 4 k (n-k) = (n-2k)^2 >= 0
-    let ak = a*n;
-    assert(ak == k*(n-k)) by(nonlinear_arith) requires ak == a*n, a == kk*(n-k), kk*n == k;
-    let e = n - 2real*k;
-    assert(e*e >= 0real) by(nonlinear_arith);
-    assert(n*n - 4real*(k*(n-k)) == e*e) by(nonlinear_arith) requires e == n - 2real*k;
-    assert(4real*ak <= n*n);
-    assert(4real*a <= n) by(nonlinear_arith) requires 4real*ak <= n*n, ak == a*n, n > 0real;
-    // main inequality: r2 * d1^2 < r1 * d2^2
-    let d1 = n + zz; let d2 = n2 + zz;
-    assert(d1 == wd(n,z) && d2 == wd(n2,z));
-    let g = m - 1real;
-    let mn = m*n; let nn = n*n; let z4 = zz*zz;
-    let br = a*(m*nn) - a*z4 + w*(nn*(m + 1real)) + 2real*(w*(n*zz));
-    // r1*d2^2 - r2*d1^2 == g * br
-    let d1s = d1*d1; let d2s = d2*d2;
-    assert(d1s == nn + 2real*(n*zz) + z4) by(nonlinear_arith) requires d1s == d1*d1, d1 == n + zz, nn == n*n, z4 == zz*zz;
-    assert(d2s == (m*m)*nn + 2real*(m*(n*zz)) + z4) by(nonlinear_arith) requires d2s == d2*d2, d2 == n2 + zz, n2 == m*n, nn == n*n, z4 == zz*zz;
-    let x1 = n*zz;
-    let lhs = (a + w)*d2s; let rhs = (m*a + w)*d1s;
-    let mm = m*m;
-    let m1 = a*(mm*nn); let m2 = a*(m*nn); let m3 = (m*a)*z4; let m4 = a*z4;
-    let m5 = w*(mm*nn); let m6 = w*nn; let m7 = w*(m*x1); let m8 = w*x1; let m9 = a*(m*x1);
-    let m10 = w*z4; let m11 = w*(m*nn);
-    let t2 = mm*nn; let t3 = m*x1;
-    assert(d2s == t2 + 2real*t3 + z4);
-    assert(lhs == a*t2 + 2real*(a*t3) + a*z4 + w*t2 + 2real*(w*t3) + w*z4) by(nonlinear_arith)
-        requires lhs == (a + w)*d2s, d2s == t2 + 2real*t3 + z4;
-    assert(lhs == m1 + 2real*m9 + m4 + m5 + 2real*m7 + m10);
-    let ma = m*a;
-    assert(rhs == ma*nn + 2real*(ma*x1) + ma*z4 + w*nn + 2real*(w*x1) + w*z4) by(nonlinear_arith)
-        requires rhs == (ma + w)*d1s, d1s == nn + 2real*x1 + z4;
-    assert(ma*nn == m2) by(nonlinear_arith) requires ma == m*a, m2 == a*(m*nn);
-    assert(ma*x1 == m9) by(nonlinear_arith) requires ma == m*a, m9 == a*(m*x1);
-    assert(rhs == m2 + 2real*m9 + m3 + m6 + 2real*m8 + m10);
-    // g*br, term by term
-    let b3 = w*(nn*(m + 1real));
-    assert(b3 == m11 + m6) by(nonlinear_arith) requires b3 == w*(nn*(m + 1real)), m11 == w*(m*nn), m6 == w*nn;
-    assert(br == m2 - m4 + b3 + 2real*m8);
-    assert(m*m2 == m1) by(nonlinear_arith) requires m2 == a*(m*nn), m1 == a*(mm*nn), mm == m*m;
-    assert(m*m4 == m3) by(nonlinear_arith) requires m4 == a*z4, m3 == (m*a)*z4;
-    assert(m*m11 == m5) by(nonlinear_arith) requires m11 == w*(m*nn), m5 == w*(mm*nn), mm == m*m;
-    assert(m*m6 == m11) by(nonlinear_arith) requires m6 == w*nn, m11 == w*(m*nn);
-    assert(m*m8 == m7) by(nonlinear_arith) requires m8 == w*x1, m7 == w*(m*x1);
-    let s4 = m2 - m4 + m11 + m6 + 2real*m8;
-    assert(br == s4);
-    assert(g*s4 == m*m2 - m*m4 + m*m11 + m*m6 + 2real*(m*m8) - s4) by(nonlinear_arith)
-        requires g == m - 1real, s4 == m2 - m4 + m11 + m6 + 2real*m8;
-    assert(lhs - rhs == g*br);
-    // br > 0
-    assert(a*z4 <= w*x1) by(nonlinear_arith) requires 4real*a <= n, w == zz/4real, x1 == n*zz, z4 == zz*zz, zz > 0real;
-    assert(a*(m*nn) > 0real) by(nonlinear_arith) requires a > 0real, m > 1real, nn == n*n, n > 0real;
-    assert(w > 0real);
-    assert(w*(nn*(m + 1real)) > 0real) by(nonlinear_arith) requires w > 0real, nn == n*n, n > 0real, m > 1real;
-    assert(w*x1 > 0real) by(nonlinear_arith) requires w > 0real, x1 == n*zz, n > 0real, zz > 0real;
-    assert(br > 0real);
-    assert(g*br > 0real) by(nonlinear_arith) requires g > 0real, br > 0real;
-    assert(rhs < lhs);
-    // spans
-    let sp1 = w_span(n,k,z); let sp2 = w_span(n2,k2,z);
-    let q1 = sp1*sp1; let q2 = sp2*sp2;
-    assert(q1*d1s == zz*r1);
-    assert(q2*d2s == zz*r2);
-    // q2 * d2s * d1s = zz * r2 * d1s < zz * r1 * d2s = q1 * d1s * d2s
-    assert(zz*rhs < zz*lhs) by(nonlinear_arith) requires rhs < lhs, zz > 0real;
-    assert((q2*d2s)*d1s == zz*rhs) by(nonlinear_arith) requires q2*d2s == zz*r2, rhs == r2*d1s;
-    assert((q1*d1s)*d2s == zz*lhs) by(nonlinear_arith) requires q1*d1s == zz*r1, lhs == r1*d2s;
-    let dd = d1s*d2s;
-    assert(dd > 0real) by(nonlinear_arith) requires dd == d1s*d2s, d1s == d1*d1, d2s == d2*d2, d1 > 0real, d2 > 0real;
-    assert(q2*dd == (q2*d2s)*d1s) by(nonlinear_arith) requires dd == d1s*d2s;
-    assert(q1*dd == (q1*d1s)*d2s) by(nonlinear_arith) requires dd == d1s*d2s;
-    assert(q2 < q1) by(nonlinear_arith) requires q2*dd < q1*dd, dd > 0real;
-    lemma_sq_lt(sp2, sp1);
-}
-
